@@ -95,6 +95,9 @@ func checkResume(in HistInput) string {
 		return d
 	}
 	for i, d := range base.Deliveries {
+		if d.Tx == nil {
+			continue // the handler wiped what it got
+		}
 		if diff := d.Snap.Diff(hx.Snapshot(d.Tx)); diff != "" {
 			return fmt.Sprintf("delivery %d changed after it was delivered (re-read after the stream ended): %s", i, diff)
 		}
@@ -290,6 +293,19 @@ func runC03(r *chk.Run) {
 						if !hr.add(in2) {
 							return
 						}
+					}
+				}
+				if len(seq) <= 3 && len(seq) > 0 && ci == 0 && mode == "" {
+					// a handler that owns what it gets: labels, chain and resume points all the same
+					inw := in
+					inw.Wipe = true
+					if !hr.add(inw) {
+						return
+					}
+					for k := 1; k <= len(seq); k++ {
+						in2 := inw
+						in2.RepositionAt = k
+						hr.add(in2)
 					}
 				}
 				if len(seq) <= 3 && len(seq) > 0 && ci == 0 && mode == "" {
